@@ -66,6 +66,13 @@ CLAIMS = {
             TRUST + "uniformity/independence of random.randrange (statistical half bounded); mid-life pickup of generators is a recorded known finding (carve-out on cause)."),
 }
 
+CLAIMS["C08"] = ("proof", "6.C08",
+    "Decode side: type_from_dict / typed_dict_from_dict / type_from_json / arg_types_from_json / maybe_decode_type / CallTraceRow.to_trace / get_func_in_module / get_name_in_module "
+    "are proved to terminate on encoder-produced JSON, to raise MonkeyTypeError only, and to keep an absent return / yield absent (None <-> None, 'null'). "
+    "The round-trip equation DEC(ENC(t)) structurally equal to t and 'encoding is a function of structure' are decided by the bounded tier (all inferred types for all k, "
+    "rewritten forms, traces over every function kind of a generated package).",
+    TRUST + "the round-trip lemma itself is bounded in this round (type_to_dict is not under an L1 contract); T-IMPORT / T-JSON assumed.")
+
 NA = {
     "C01": "end-to-end composition: the stage contracts it composes are proved under C02/C04/C07/C10/C13; the composition lemma and the text half (C11) are not built yet",
     "C05": "tightness clauses (witness vocabulary) not built yet",
